@@ -6,7 +6,7 @@ import json
 from .. import core
 
 INV = ['TypeOK', 'C05_Visits', 'C05_Triple', 'C05_Contain', 'C05_Early', 'C05_SkipMovesOn']
-ACTIONS = ['CheckMinMax', 'CheckLabels', 'IterPeriods', 'Visit', 'Return']
+ACTIONS = ['CheckMinMax', 'CheckLabels', 'IterPeriods', 'DoVisit', 'Return']
 
 CFG = '''INIT MCInit
 NEXT Next
